@@ -60,7 +60,7 @@ func (c20) Mandatory(tier string) []string {
 		m = append(m, "strace:syscalls-observed", "strace:dry-run:Copy", "strace:dry-run:Move", "strace:dry-run:Remove", "strace:injected:Copy", "strace:injected:Move", "strace:injected:Remove")
 	}
 	return append(m, "fault:Copy:control-copy-cut-short", "fault:Remove:missing-source", "k:0", "k:1", "k:2+", "order:copy-control-after-all-closed", "order:move-control-last",
-		"order:remove-control-last", "hostile:../secret.txt", "hostile:sub/../../secret.txt", "hostile:../../other/o.txt", "hostile:/abs/x", "hostile:sub/inner.txt", "hostile:../", "hostile:..//", "hostile:./", "hostile:/", "hostile:sub/", "hostile:../../other/", "hostile:sub/..", "inotify-events-seen", "dest-has-longer-files-of-the-same-names", "hostile:only-in-checksum-fields", "hostile:control-file-lists-itself", "sequence:harmless-upload-through-the-same-path-first", "handle:reader-entry-point-with-unclean-path", "handle:relative-paths", "dest:spelled-with-trailing-slash", "dest:spelled-with-trailing-dot", "dest:spelled-through-a-subdirectory-and-dotdot", "handle:control-file-is-a-symlink", "env:GOMAXPROCS=1", "sequence:Copy then Remove", "sequence:Copy then Move", "sequence:Move then Remove", "sequence:Move then Move")
+		"order:remove-control-last", "hostile:../secret.txt", "hostile:sub/../../secret.txt", "hostile:../../other/o.txt", "hostile:/abs/x", "hostile:sub/inner.txt", "hostile:../", "hostile:..//", "hostile:./", "hostile:/", "hostile:sub/", "hostile:../../other/", "hostile:sub/..", "hostile:..", "hostile:.", "inotify-events-seen", "dest-has-longer-files-of-the-same-names", "hostile:only-in-checksum-fields", "hostile:control-file-lists-itself", "sequence:harmless-upload-through-the-same-path-first", "handle:reader-entry-point-with-unclean-path", "handle:relative-paths", "dest:spelled-with-trailing-slash", "dest:spelled-with-trailing-dot", "dest:spelled-through-a-subdirectory-and-dotdot", "handle:control-file-is-a-symlink", "env:GOMAXPROCS=1", "sequence:Copy then Remove", "sequence:Copy then Move", "sequence:Move then Remove", "sequence:Move then Move")
 }
 
 type c20Case struct {
@@ -224,7 +224,7 @@ func (p c20) run(c *core.C, t *core.T, cs c20Case) {
 		}
 		c.Cover("handle:control-file-is-a-symlink")
 	}
-	plain := func(n string) bool { return !strings.ContainsAny(n, "/") }
+	plain := func(n string) bool { return !strings.ContainsAny(n, "/") && n != "." && n != ".." } // (a name that designates a directory is not a file name)
 	for _, n := range cs.Names {
 		if plain(n) && n != ctlName {
 			write(filepath.Join(src, n), r.Range(0, 400))
@@ -667,7 +667,7 @@ func maskName(m uint32) string {
 	return strings.Join(s, "|")
 }
 
-var c20Hostile = []string{"../secret.txt", "sub/../../secret.txt", "../../other/o.txt", "/abs/x", "sub/inner.txt", "../", "..//", "./", "/", "sub/", "../../other/", "sub/.."}
+var c20Hostile = []string{"../secret.txt", "sub/../../secret.txt", "../../other/o.txt", "/abs/x", "sub/inner.txt", "../", "..//", "./", "/", "sub/", "../../other/", "sub/..", "..", "."}
 
 func plainNames(r *core.Rand, k int) []string {
 	pool := []string{"pkg_1.0.orig.tar.gz", "pkg_1.0-1.debian.tar.xz", "pkg_1.0-1_amd64.deb", "pkg_1.0-1.dsc.asc", "pkg-doc_1.0-1_all.deb", "pkg_1.0-1_amd64.buildinfo"}
